@@ -842,8 +842,8 @@ class RFBClient(Protocol):  # type: ignore[misc]
         else:
             tx = x
             ty = y
-        # more tiles?
-        if ty >= y + height:
+        # more tiles? (a rectangle of zero width has none)
+        if ty >= y + height or tx >= x + width:
             self._doConnection()
         else:
             self.expect(
